@@ -186,4 +186,59 @@ fn open_scan_page(buffer: PageBuf, base: usize, offset: usize, recovered: &mut V
                     }
 //@end
 
+
+// ---- TombstoneLog::append, one tombstone: written at slot_addr(tail), page flushed before another is loaded
+pub struct Error { pub e: u8 }
+pub type Result<T> = core::result::Result<T, Error>;
+pub uninterp spec fn enc_tombstone(t: Tombstone) -> Seq<u8>;
+/// in-memory copy of one log page plus a ghost log of what was written back to the device
+pub struct PageBufferT { pub page: u32, pub bytes: Ghost<Seq<u8>>, pub flushed: Ghost<Seq<(u32, Seq<u8>)>> }
+impl PageBufferT {
+    #[verifier::external_body]
+    pub fn flush(&mut self) -> (r: Result<()>)
+        ensures final(self).page == old(self).page, final(self).bytes@ == old(self).bytes@,
+            r.is_ok() ==> final(self).flushed@ == old(self).flushed@.push((old(self).page, old(self).bytes@)),
+    { unimplemented!() }
+    #[verifier::external_body]
+    pub fn load(&mut self, page: u32) -> (r: Result<()>)
+        ensures final(self).page == page, final(self).flushed@ == old(self).flushed@, final(self).bytes@.len() == PAGE,
+    { unimplemented!() }
+}
+/// stands for `tombstone.write(&mut inner.buffer.as_mut()[start..end])` (mutable sub-slice indexing is outside Verus;
+/// byte-level contract of `Tombstone::write` is the Kani unit codec)
+#[verifier::external_body]
+pub fn verif_write_tombstone(tombstone: &Tombstone, buffer: &mut PageBufferT, start: usize, end: usize)
+    requires start + 16 == end, end <= old(buffer).bytes@.len(), // @label tombstone_written_inside_the_page
+    ensures
+        final(buffer).page == old(buffer).page, final(buffer).flushed@ == old(buffer).flushed@,
+        enc_tombstone(*tombstone).len() == 16, // Kani unit codec: tombstone_roundtrip.write_advances_exactly_16
+        final(buffer).bytes@ == old(buffer).bytes@.subrange(0, start as int) + enc_tombstone(*tombstone) + old(buffer).bytes@.subrange(end as int, old(buffer).bytes@.len() as int),
+{ unimplemented!() }
+pub struct TombstoneLogInner { pub buffer: PageBufferT, pub slot: usize }
+
+impl TombstoneLog {
+//@region foyer-storage/src/engine/block/tombstone.rs :: impl~^impl TombstoneLog$/fn append name=append_one start=/let slot = inner\.slot;/ end=/inner\.slot \+= 1;/ rules=de-async sub=@tombstone\.write\(&mut inner\.buffer\.as_mut\(\)\[start\.\.end\]\)@verif_write_tombstone(tombstone, &mut inner.buffer, start, end)@
+//@head
+    fn append_one(&self, inner: &mut TombstoneLogInner, tombstone: &Tombstone) -> (r: Result<()>)
+        requires
+            self.pages > 0, self.pages <= u32::MAX,
+            old(inner).slot < usize::MAX,
+            old(inner).buffer.bytes@.len() == PAGE,
+        ensures
+            r.is_ok() ==> {
+                let page = ((old(inner).slot as int / 256) % (self.pages as int)) as u32;
+                let off = (old(inner).slot as int % 256) * 16;
+                &&& final(inner).slot == old(inner).slot + 1
+                &&& final(inner).buffer.page == page
+                &&& final(inner).buffer.bytes@.len() == PAGE
+                &&& final(inner).buffer.bytes@.subrange(off, off + 16) == enc_tombstone(*tombstone)
+                &&& (page == old(inner).buffer.page ==> final(inner).buffer.flushed@ == old(inner).buffer.flushed@
+                        && final(inner).buffer.bytes@.subrange(0, off) == old(inner).buffer.bytes@.subrange(0, off)
+                        && final(inner).buffer.bytes@.subrange(off + 16, PAGE as int) == old(inner).buffer.bytes@.subrange(off + 16, PAGE as int))
+                &&& (page != old(inner).buffer.page ==> final(inner).buffer.flushed@ == old(inner).buffer.flushed@.push((old(inner).buffer.page, old(inner).buffer.bytes@)))
+            }, // @label append_writes_at_tail_slot_and_flushes_page_before_switching
+//@tail
+        Ok(())
+//@end
+}
 } // verus!
